@@ -60,6 +60,7 @@ func checkC15(c *an.Ctx) {
 	c.Rule("C15.5", "bounded recursion (E3): every recursive cycle of the load scope is guarded — the import recursion by the visited set on the key passed on, the recursion over included pipelines by the inclusion check of C18.5")
 	c.Rule("C15.6", "tolerated sentinel (E7 taint + E3): where a caller of Load tolerates an error matching a sentinel of internal/config and uses the returned configuration unconditionally, an error that may match the sentinel (the sentinel itself, an fmt.Errorf %w wrap of one, a result passed on) never crosses a recursive call of the loading functions, and Load returns the non-recursive origin together with the destination configuration")
 	c.Rule("C15.7", "guarded document merges (E6d + library summary): a mergo call of the load scope whose operands are raw documents (maps of interface values) runs under a deferred recover that stores a non-nil error into the function's error result — mergo v0.3.8 panics in reflect when the two documents' map types differ (yaml.v2 vs json/toml)")
+	c.Rule("C15.8", "decode hooks (library contract): a function of the module with the shape of a mapstructure DecodeHookFunc never returns a nil value with a nil error (mapstructure v1.1.2 panics on it for every non-interface target)")
 	c.NotDecided = append(c.NotDecided,
 		"termination and panic-freedom inside yaml.v2, encoding/json, go-toml, mapstructure, text/template and doublestar on adversarial input (their bodies are outside the lint's scope)",
 		"nil-ness of struct fields (only map/slice elements, parameters fed from them and call results are tracked)",
@@ -90,8 +91,14 @@ func checkC15(c *an.Ctx) {
 	nilDereferences(c, fns, scope, "C15.3")
 	aborts(c, fns, "C15.4")
 	boundedRecursion(c, fns, scope, "C15.5")
+	// the recursion over included pipelines (graph drawing, the scheduler) is bounded only if no accepted
+	// configuration includes a pipeline in itself: the premises of C18.5 are obligations of C15.5 too
+	if bfd := p.Func("internal/config", "", "buildFromDefinition"); bfd != nil {
+		inclusionCycles(c, bfd, "C15.5")
+	}
 	toleratedSentinels(c, "C15.6")
 	guardedDocumentMerges(c, fns, "C15.7")
+	decodeHooks(c, "C15.8")
 	_ = p
 }
 
